@@ -74,4 +74,35 @@ def check(ctx: Ctx) -> str:
                     bad[entry] = t_
     ctx.check(not bad, "generated:stores", "compiler:CodeGenerator", f"generated code writes shared objects: {bad}", f"generated code stores into environment / template objects or module globals: {bad}", "src/jinja2/compiler.py")
     ctx.floor("skeletons scanned for shared stores", n, 3000)
+
+    ctx.rule("R4", "contexts that outlive a render: the module of an imported template is memoised on the Template object (with the Context its macros close over), so code emitted for statements that may occur in a macro body must not store into `context` / `context.eval_ctx`")
+    memo = []
+    for meth in ("_get_default_module", "_get_default_module_async"):
+        fi = repo.func(f"environment:Template.{meth}")
+        memo += [a for a in ast.walk(fi.node) if isinstance(a, ast.Assign) and ast.unparse(a.targets[0]) == "self._module" and "make_module" in ast.unparse(a.value)]
+    ctx.floor("module memo sites", len(memo), 2)
+    writers: dict[str, str] = {}
+    scanned = 0
+    for entry, items in res.items():
+        if not entry.startswith("visit_"):
+            continue
+        for p, sk in items:
+            if sk.error:
+                continue
+            # top-level-only stores (context.vars / exported_vars) cannot occur in a macro body
+            if p.decisions.get("frame.toplevel") is True:
+                continue
+            scanned += 1
+            for line in sk.text.splitlines():
+                t_ = line.strip()
+                head = t_.split("(")[0]
+                if (t_.startswith("context.") and " = " in head) or t_.startswith("context.eval_ctx.revert(") or t_.startswith("context.vars[") and " = " in t_ or t_.startswith("context.exported_vars."):
+                    writers.setdefault(entry, t_)
+    ctx.floor("non-toplevel statement skeletons", scanned, 1000)
+    for entry in sorted(res):
+        if not entry.startswith("visit_"):
+            continue
+        w = writers.get(entry)
+        ctx.check(w is None, f"module-context:{entry}", f"compiler:CodeGenerator.{entry}", "stores into the context of a memoised template module",
+                  f"{entry} emits `{w}`; inside a macro of an imported template `context` is the memoised module's Context (Template._module), shared by every render that imports the template: a render suspended between the store and its revert changes the eval context that concurrent renders of the same macros see", "src/jinja2/compiler.py", detail={"emitted": w})
     return __doc__ or ""
